@@ -76,8 +76,9 @@ RevBody(fp) == [fp EXCEPT !.kind = IF fp.kind = "C" THEN "D" ELSE IF fp.kind = "
    a reversed rename, and a mode change without hunks for a file that does not exist (the tool
    remembers the mode for a later creation, GNU patch cannot find the file). *)
 Adversarial(tree, fp, rev) ==
-  \/ fp.ren /\ (rev \/ ~tree[ChooseName(tree, fp)].ex \/ ChooseName(tree, fp) = fp.new)
-  \/ fp.kind = "M" /\ fp.hunks = <<>> /\ ~fp.ren /\ ~tree[ChooseName(tree, fp)].ex
+  /\ fp.kind # "E"
+  /\ (\/ fp.ren /\ (rev \/ ~tree[ChooseName(tree, fp)].ex \/ ChooseName(tree, fp) = fp.new)
+      \/ fp.kind = "M" /\ fp.hunks = <<>> /\ ~fp.ren /\ ~tree[ChooseName(tree, fp)].ex)
 
 (* result: [tree, ok, attempted, target, final, failed, before, beforeNew] *)
 ApplyFP(tree, fp, rev) ==
